@@ -25,6 +25,14 @@ def vals(r, org, n, special=False):
     return [r.below(R) for _ in range(n)]
 
 PF = [0]
+SHIFTS = {"rgb8": [0, 8, 16], "rgb8p": [0, 8, 16], "bgr8": [0, 8, 16], "rgb565": [0, 5, 11], "rgb222": [0, 2, 4], "gray1": [0], "gray4": [0], "gray8": [0]}
+def one_channel_diff(org, v, c):
+    if org == "rgb32f":
+        sh = 3 * (c % 3); idx = (v >> sh) & 7
+        return (v & ~(7 << sh)) | ((3 if idx == 2 else 2) << sh)
+    sh = SHIFTS[org][c % len(SHIFTS[org])]
+    return v ^ (1 << sh)
+
 def line(alg, org, sk, dk, w, h, so, do, spad, dpad, arg, sv, dv, s2v=None):
     s = "%s %s %s %s %d %d %d %d %d %d %d %d | %s | %s" % (alg, org, sk, dk, w, h, so, do, spad, dpad, arg, PF[0], " ".join(map(str, sv)), " ".join(map(str, dv)))
     if s2v is not None: s += " | " + " ".join(map(str, s2v))
@@ -38,10 +46,10 @@ def gen_ops(ctx):
         R = RANGE[org]
         for sk in KINDS:
             for dk in KINDS:
-                dims = list(DIMS_Q) + [r.choice(dims_all) for _ in range(40 if th else 3)]
+                dims = list(DIMS_Q) + [r.choice(dims_all) for _ in range(20 if th else 3)]
                 for (w, h) in dims:
                     n = w * h
-                    for rep in range(3 if th else 1):
+                    for rep in range(1):
                         so, do = opar(r, org, sk), opar(r, org, dk)
                         spad, dpad = r.choice(PADS[org]), r.choice(PADS[org])
                         sv, dv = vals(r, org, n), vals(r, org, n)
@@ -53,8 +61,9 @@ def gen_ops(ctx):
                         if org == "rgb32f": ev = [v if v % 8 != 7 and (v >> 3) % 8 != 7 and (v >> 6) % 8 != 7 else 2 for v in ev]
                         A("equal", 0, ev, list(ev))
                         pos = list(range(n)) if (th or n <= 4) else sorted({0, n - 1, r.below(n), r.below(n)})
-                        for k in pos:
-                            dv2 = list(ev); dv2[k] = (dv2[k] + 1 + r.below(R - 1)) % R
+                        for j, k in enumerate(pos):
+                            # the differing pixel differs in exactly ONE channel (each channel in turn): a comparison that skips a channel / plane is caught
+                            dv2 = list(ev); dv2[k] = one_channel_diff(org, ev[k], j + r.below(3))
                             A("equal", 0, ev, dv2)
                         if org == "rgb32f" and n:
                             # +0.0 against -0.0 compares equal; NaN compares unequal to itself
@@ -72,8 +81,8 @@ def gen_ops(ctx):
                     if so_ != "gray8":
                         ops.append(line("copy", cross, sk, dk, w, h, so, do, spad, dpad, 0, sv, dv))
                         ops.append(line("equal", cross, sk, dk, w, h, so, do, spad, dpad, 0, sv, list(sv)))
-                        if n:
-                            dv2 = list(sv); k = r.below(n); dv2[k] = (dv2[k] + 1 + r.below(RANGE[do_] - 1)) % RANGE[do_]
+                        for c in range(3 if n else 0):
+                            dv2 = list(sv); k = r.below(n); dv2[k] = one_channel_diff(do_, dv2[k], c)
                             ops.append(line("equal", cross, sk, dk, w, h, so, do, spad, dpad, 0, sv, dv2))
     return list(dict.fromkeys(ops))
 
